@@ -88,10 +88,10 @@ class Gen:
         if k < 0.52:
             return "'" + r.choice(["", "a b", "$x", '"', "\\", "a\nb", "#c", ";", "`"]) + "'"
         if k < 0.60:
-            inner = r.choice(["", "a b", "$x", "${y}", "\\\"", "\\$", "a'b", "$(c)", "`c`", "$((1+2))", "#n", "a\\\nb"])
+            inner = r.choice(["", "a b", "$x", "${y}", "\\\"", "\\$", "a'b", "$(c)", "`c`", "$((1+2))", "#n", "a\\\nb", "\\\u00e9", "a\\\u65e5b", "\\\u010a"])
             return '"' + inner + '"'
         if k < 0.65:
-            return "\\" + r.choice([" ", ";", "a", "$", "\\", "'", '"', "#", "&", "|", "("])
+            return "\\" + r.choice([" ", ";", "a", "$", "\\", "'", '"', "#", "&", "|", "(", "\u00e9", "\u010a"])
         if k < 0.72:
             return "$" + r.choice(["x", "1", "@", "*", "#", "?", "-", "$", "!", "0", "foo"])
         if k < 0.82:
@@ -119,7 +119,7 @@ class Gen:
             delim = r.choice(["EOF", "E", "END1"])
             q = r.choice(["", "", "'", "\\"])
             op = r.choice(["<<", "<<-"])
-            body = r.choice(["", "line\n", "a $x\n", "\n", "  two\nlines\n", "E2\n", "\tt\n", "$(c)\n", "`c`\n", "a\\\nb\n", "#nc\n", "\\$x \\\\\n",
+            body = r.choice(["", "line\n", "a $x\n", "\n", "  two\nlines\n", "E2\n", "\tt\n", "$(c)\n", "`c`\n", "a\\\nb\n", "#nc\n", "\\$x \\\\\n", "\\\u00e9 \\\u65e5\n", "a\\\u010ab\n",
                              ] + (["$(\n\techo x\n)\n", "`a\nb`\n", "x $((1 +\n2)) y\n", "$(a; b\n c)\n"] if self.ml_bodies else []))
             if q == "" and r.random() < 0.08:
                 # a continued line that spells the delimiter is not the delimiter line
